@@ -181,7 +181,11 @@ class Gen:
         if p == "apply":
             return r.choice([[S("apply"), S("list"), 1, 2, q(self.ints(4))], [S("apply"), S("append"), q([self.ints(3), self.ints(3)])],
                              [S("apply"), S("cons"), q([1, [2]])], [S("apply"), S("map"), [S("list"), self.ticker(S("x")), q(self.ints(5))]],
-                             [S("apply"), S("+"), q(self.ints(6))], [S("apply"), S("list-tail"), q([[1, 2, 3], 1])]])
+                             [S("apply"), S("+"), q(self.ints(6))], [S("apply"), S("list-tail"), q([[1, 2, 3], 1])],
+                             # the spread list is too long or too short for the procedure: an error, as for the direct call
+                             [S("apply"), S(r.choice(["cons", "car", "cdr", "null?", "pair?"])), q([[1, 2]] + self.ints(3))],
+                             [S("apply"), S(r.choice(["cons", "car", "list-tail", "list-ref"])), 1, q([])],
+                             [S("apply"), S(r.choice(["memq", "memv", "list-ref"])), q(S("a")), q([[S("a")], 3, 4])]])
         return self.compose(r.randint(2, 4))
 
     def mutate(self, d):
